@@ -86,7 +86,7 @@ structure LR (s : State) : Prop where
 theorem lr_init (progs : Tid → List Op) : LR (init progs) := by
   constructor <;> simp [init, ownsRes, sOwnsRes]
 
-set_option maxHeartbeats 4000000 in
+set_option maxHeartbeats 2000000 in
 theorem lr_stepIface {s s' : State} {t : Tid} {evs : List Ev} (h : LR s)
     (hw : ∀ u ∈ s.pWait, (s.th u).pc = IPc.wBlocked) (hz : (s.th 0).pc = IPc.idle)
     (hq : QW s) (ht : t ≠ 0)
@@ -101,7 +101,7 @@ theorem lr_stepIface {s s' : State} {t : Tid} {evs : List Ev} (h : LR s)
      obtain ⟨a1, a2, a3⟩ := h
      constructor <;> (try simp only [setPc]) <;> grind [ownsRes, sOwnsRes, QW])
 
-set_option maxHeartbeats 4000000 in
+set_option maxHeartbeats 2000000 in
 theorem lr_stepSolver {s s' : State} {evs : List Ev} (h : LR s)
     (hw : ∀ u ∈ s.pWait, (s.th u).pc = IPc.wBlocked) (hz : (s.th 0).pc = IPc.idle)
     (hq : QW s) (hal : s'.spc ≠ SPc.crashed)
@@ -134,7 +134,7 @@ structure LQ (s : State) : Prop where
 theorem lq_init (progs : Tid → List Op) : LQ (init progs) := by
   constructor <;> simp [init, ownsQ, sOwnsQ]
 
-set_option maxHeartbeats 4000000 in
+set_option maxHeartbeats 2000000 in
 theorem lq_stepIface {s s' : State} {t : Tid} {evs : List Ev} (h : LQ s)
     (hw : ∀ u ∈ s.pWait, (s.th u).pc = IPc.wBlocked) (hz : (s.th 0).pc = IPc.idle)
     (hq : QW s) (ht : t ≠ 0)
@@ -149,7 +149,7 @@ theorem lq_stepIface {s s' : State} {t : Tid} {evs : List Ev} (h : LQ s)
      obtain ⟨a1, a2, a3, a4, a5, a7, a6⟩ := h
      constructor <;> (try simp only [setPc]) <;> grind [ownsQ, sOwnsQ, isQNta, QW])
 
-set_option maxHeartbeats 4000000 in
+set_option maxHeartbeats 2000000 in
 theorem lq_stepSolver {s s' : State} {evs : List Ev} (h : LQ s)
     (hw : ∀ u ∈ s.pWait, (s.th u).pc = IPc.wBlocked) (hz : (s.th 0).pc = IPc.idle)
     (hq : QW s) (hal : s'.spc ≠ SPc.crashed)
@@ -173,7 +173,7 @@ structure LP (s : State) : Prop where
 theorem lp_init (progs : Tid → List Op) : LP (init progs) := by
   constructor; simp [init]
 
-set_option maxHeartbeats 4000000 in
+set_option maxHeartbeats 2000000 in
 theorem lp_stepIface {s s' : State} {t : Tid} {evs : List Ev} (h : LP s)
     (hw : ∀ u ∈ s.pWait, (s.th u).pc = IPc.wBlocked) (hz : (s.th 0).pc = IPc.idle)
     (hq : QW s) (ht : t ≠ 0)
@@ -188,7 +188,7 @@ theorem lp_stepIface {s s' : State} {t : Tid} {evs : List Ev} (h : LP s)
      obtain ⟨a1⟩ := h
      constructor <;> (try simp only [setPc]) <;> grind [holdsP, QW])
 
-set_option maxHeartbeats 4000000 in
+set_option maxHeartbeats 2000000 in
 theorem lp_stepSolver {s s' : State} {evs : List Ev} (h : LP s)
     (hw : ∀ u ∈ s.pWait, (s.th u).pc = IPc.wBlocked) (hz : (s.th 0).pc = IPc.idle)
     (hq : QW s) (hal : s'.spc ≠ SPc.crashed)
@@ -217,7 +217,7 @@ structure COwn (s : State) : Prop where
 theorem cown_init (progs : Tid → List Op) : COwn (init progs) := by
   constructor; simp [init]
 
-set_option maxHeartbeats 4000000 in
+set_option maxHeartbeats 2000000 in
 theorem cown_stepIface {cfg : Cfg} {s s' : State} {t : Tid} {evs : List Ev} (h : COwn s)
     (hi : Inv s) (hq : QW s)
     (hw : ∀ u ∈ s.pWait, (s.th u).pc = IPc.wBlocked)
@@ -236,7 +236,7 @@ theorem cown_stepIface {cfg : Cfg} {s s' : State} {t : Tid} {evs : List Ev} (h :
      constructor <;> (try simp only [setPc, execIds] at *) <;>
        grind [holding, pendingId, QW, relcId])
 
-set_option maxHeartbeats 4000000 in
+set_option maxHeartbeats 2000000 in
 theorem cown_stepSolver {cfg : Cfg} {s s' : State} {evs : List Ev} (h : COwn s)
     (hi : Inv s)
     (hw : ∀ u ∈ s.pWait, (s.th u).pc = IPc.wBlocked) (hal : s'.spc ≠ SPc.crashed)
